@@ -58,6 +58,20 @@ KINDS_CONTRACT = """  - change the REPRESENTATION of a value that crosses a func
     Drop impls that do the same work through a helper, `ogre_sync::lock/unlock` re-expressed, `Instruments` predicates re-expressed with the same truth table
     (e.g. `x & MASK != 0` <-> `x & MASK > 0` <-> `(x & MASK) == MASK` ONLY for single-bit masks), prelude aliases spelled through an intermediate alias.
 """
+KINDS_COND = """  - add a CORRECT configuration-dependent specialisation that computes the same thing: e.g. `if MAX_STREAMS == 1 { <the same steps with the loop unrolled for the one entry the
+    live list really has> } else { <original> }` (still reading the live list / the same counters), `if BUFFER_SIZE.is_power_of_two() { x & (N-1) } else { x % N }`,
+    `if !std::mem::needs_drop::<T>() { <skip ONLY a statement that is a no-op for such types, e.g. an explicit drop(value)> }`, `if size_of::<T>() == 0 { .. same .. }`,
+    a `match concurrency_limit { 1 => .., _ => .. }` re-expressed with `if`, a `const IS_SINGLE: bool = MAX_STREAMS == 1;` used in an existing comparison,
+  - add a `debug_assert!` / `assert!` / `#[cfg(debug_assertions)]` block that checks something ALWAYS TRUE at that point (on the ACCEPT path of a guard: `len_before < BUFFER_SIZE`;
+    after a successful CAS; an index below MAX_STREAMS that was just read from the live list and is not the sentinel; a refcount that is >= 1 before a decrement), or debug-only
+    logging of values already read,
+  - `cfg!(debug_assertions)`-dependent code whose both arms do the same thing for the library's state (extra checks / logs only),
+  - a new generic const / associated const / const fn that merely names an expression already used (`const LAST_STREAM: u32 = MAX_STREAMS as u32 - 1`), used in place of it,
+  - hoist a configuration test out of a loop or push it into the loop when the tested value is a generic const or never changes,
+  - replace a `match` over `Duration::ZERO` / a bool flag / an Instruments predicate by an equivalent `if` on the very same value (no unit conversion, no extra conjunct),
+  - Instruments-dependent branches re-expressed with the same truth table for ALL instrument values (not only the presets),
+  - split a function into a `#[inline(always)]` generic helper parameterised by a const bool that is instantiated with both values exactly where the original branched.
+"""
 print(f"""You are helping to test a static verification tool for false alarms. You have your own scratch git worktree of a Rust library
 (zertyz/reactive-mutiny: async reactive event library with Uni/Multi channels over custom lock-free queues, pool allocators, OgreArc refcounting,
 an mmap log channel and stream executors) at {wt}. Work ONLY inside {wt} and {wt}-out. Never read or write /repo or /verif.
@@ -70,7 +84,7 @@ analysis of the source. We need to know whether it raises alarms on code where t
 
 YOUR TASK: produce EIGHT different, independent, realistic BEHAVIOUR-PRESERVING changes to the library's non-test source under {wt}/src, each touching
 code at or near the anchors above (the mechanisms the properties rest on), such as a maintainer would make in ordinary maintenance:
-{KINDS_ADD if style=='additive' else KINDS_CONTRACT if style=='contract' else (KINDS_MAINT + KINDS_CONTRACT) if style=='mixed' else KINDS_MAINT}{('FOCUS: at least SIX of the eight changes must edit the bodies of these functions (one or two functions per change, different ones across the changes): ' + focus + chr(10)) if focus else ''}Each change must be SEMANTICALLY NEUTRAL with respect to every property above under EVERY interleaving, input and history (do not weaken orderings,
+{KINDS_ADD if style=='additive' else KINDS_CONTRACT if style=='contract' else (KINDS_MAINT + KINDS_CONTRACT) if style=='mixed' else (KINDS_COND + KINDS_MAINT) if style=='conditional' else KINDS_MAINT}{('FOCUS: at least SIX of the eight changes must edit the bodies of these functions (one or two functions per change, different ones across the changes): ' + focus + chr(10)) if focus else ''}Each change must be SEMANTICALLY NEUTRAL with respect to every property above under EVERY interleaving, input and history (do not weaken orderings,
 do not move a read/write across a synchronisation point, do not change which value a guard compares, do not change when wakes / releases / publications
 happen relative to each other except by adding strictly more wakes). If in doubt whether an edit is neutral, pick another one. Aim for variety across
 the eight (different files, different kinds of refactor); at least half should touch the *core* mechanism functions named in the anchors, not only
